@@ -127,8 +127,15 @@ fn emit_divert(
 
     if !divert.arguments.is_empty() {
         out.push(json!("ev"));
-        for argument in &divert.arguments {
-            emit_expression_ctx(argument, &mut out.content, Some(context), Some(scope));
+        for (index, argument) in divert.arguments.iter().enumerate() {
+            emit_call_argument(
+                &resolved_target,
+                index,
+                argument,
+                &mut out.content,
+                Some(context),
+                Some(scope),
+            );
         }
         out.push(json!("/ev"));
     }
